@@ -17,7 +17,6 @@ import (
 	"go.opentelemetry.io/collector/config/configretry"
 	"go.opentelemetry.io/collector/consumer/consumererror"
 	"go.opentelemetry.io/collector/exporter/exporterhelper"
-	"go.opentelemetry.io/collector/exporter/exportertest"
 	"go.opentelemetry.io/collector/verifharness/sig"
 	"go.opentelemetry.io/collector/verifharness/vt"
 	"go.opentelemetry.io/collector/verifharness/xh"
@@ -140,7 +139,7 @@ func runSOInner(s *SOScript) (bool, *vt.Finding) {
 	if err := q.Validate(); err != nil {
 		return false, vt.Failf("harness/config", "generated config rejected: %v", err)
 	}
-	set := exportertest.NewNopSettings(xh.Type)
+	set := xh.NopSettings()
 	set.TelemetrySettings = tel.NewTelemetrySettings()
 	r := configretry.NewDefaultBackOffConfig()
 	r.InitialInterval, r.MaxInterval, r.MaxElapsedTime, r.RandomizationFactor = time.Hour, time.Hour, 0, 0
